@@ -361,6 +361,28 @@ CHECKS = {
         "inputs only are not modelled."),
   technique="TLC-enumerated split/join cases replayed through the CLI functions",
  ),
+ "C08": dict(
+  level="model_checking",
+  design_ref="DESIGN.md section 5, C08",
+  text=("CopierSpec enumerates every valid HDF5 storage layout descriptor "
+        "(contiguous/chunked, none/gzip/lzf/zstd1/zstd5/zstd9, chunk "
+        "smaller/equal/larger than the data, one/many events, empty log, "
+        "fixed/variable-length log strings) x every pipeline of one or two "
+        "tasks (compress, repack, repack stripping logs or basins, condense "
+        "with/without ancillary features) and transcribes h5ds_copy's case "
+        "analysis; TLC proves every copy route value-preserving. Each case "
+        "is materialised with raw h5py (independent of dclab's writer: "
+        "features, image with attributes, log, compound table with "
+        "attributes, user metadata, a file basin and an internal basin), "
+        "the tasks run in-process, and input and output are compared with "
+        "raw h5py and through dclab (stored, basin-provided and computed "
+        "scalar features); sha256 of every input before/after. Two tdms "
+        "fixtures are converted and compared with their source."),
+  note=("compression filters trusted to be lossless; undefined feature "
+        "names are outside the claim; other tdms fixtures are truncated and "
+        "cannot be converted; quick: a quarter of the 3.7k cases."),
+  technique="TLC-enumerated layout x pipeline product replayed with an independent raw-h5py generator and comparator",
+ ),
 }
 
 NOT_YET = "check not built yet (work in progress; see DESIGN.md section 5)"
